@@ -132,6 +132,9 @@ L['C09'] = dict(modules=['Schc.Properties.C09', 'Schc.Properties.C01'], level='p
               T('C09_crc_loop', 'full', 'table-driven byte loop = bit-by-bit CRC-32c, every buffer'),
               T('C09_sctp', 'full', 'SCTP checksum: init all ones, final complement, stored low byte first'),
               T('C09_order', 'full', 'compute entries already in dependency order are run in that order'),
+              T('C09_compute_order_unique', 'full', 'where compute_function_sort orders the rule\'s compute entries consistently (Rule.orderOk, tested by the model driver on every line), ANY permutation of the entries that is sorted for the comparator equals the model\'s insertion sort: list.sort is only assumed to sort'),
+              T('C09_compute_order_sorted', 'full', 'the model\'s sort returns a permutation of the entries, sorted for the comparator'),
+              T('C09_order_test_covers_directions', 'full', 'the driver\'s test (Rule.orderOkAll) implies orderOk of the rule every direction= call works on'),
               T('restore6', 'full', 'IPv6/UDP field list: whichever of payload length, UDP length, UDP checksum were elided (zero placeholders), running their compute functions at their stack positions, in the sorted order, regenerates the valid packet bits'),
               T('step_uc', 'full', 'udp._compute_checksum at position 11 of an IPv6/UDP list builds the pseudo-header from fields 6 and 7 and the computed UDP length'),
               T('restoreS', 'full', 'SCTP field list: the checksum compute function at position 3 regenerates the CRC-32c of a valid packet'),
